@@ -403,8 +403,6 @@ def extract_routine(tree, fname, routine, workers_by_name):
     where = "%s.%s" % (fname[:-3], routine)
     fn = _fn(tree, routine, fname)
     body = _body(fn)
-    pifs = []
-    _walk_par_ifs(body, [], pifs)
     # the decision call
     dec = [
         st for st in ast.walk(fn)
@@ -413,6 +411,12 @@ def extract_routine(tree, fname, routine, workers_by_name):
     if len(dec) != 1 or _u(dec[0].targets[0]) != "(parallel, ncpu)":
         raise TieBroken("%s: expected exactly one `parallel, ncpu = _process_parallel(…)`" % where)
     dcall = [_u(a) for a in dec[0].value.args] + ["%s=%s" % (k.arg, _u(k.value)) for k in dec[0].value.keywords]
+    # `parallel == 'yes'` means "the pool is used" only AFTER the decision: the statements before the call (which
+    # may look at the user's option) are not part of the parallel / serial split
+    if dec[0] not in body:
+        raise TieBroken("%s: the call of _process_parallel is not a top-level statement" % where)
+    pifs = []
+    _walk_par_ifs(body[body.index(dec[0]) + 1:], [], pifs)
     # number of tasks
     lf = [st for st in ast.walk(fn) if _assign_to(st, "LF")]
     if len(lf) != 1:
